@@ -30,7 +30,7 @@ CODES = [1000, 1001, 1002, 1003, 1007, 1008, 1009, 1010, 1011, 3000, 4999]
 
 
 def plan(tier):
-    return [('seeded', 6000 if tier == 'quick' else 250000)]
+    return [('seeded', 12000 if tier == 'quick' else 250000)]
 
 
 def _sclose(rng):
